@@ -146,8 +146,15 @@ Proof. unfold set_all; intros ps new ps' H. destruct (validate new) eqn:V; inv H
 Theorem invalid_rejected : forall ps new, validate new = false -> set_all ps new = None.
 Proof. unfold set_all; intros ps new H; rewrite H; reflexivity. Qed.
 
-Theorem msg_needs_permission : forall ps new, msg_set_all false ps new = None.
+Theorem msg_needs_permission : forall recs ps new, msg_set_all false recs ps new = None.
 Proof. reflexivity. Qed.
+
+Theorem msg_write_valid : forall recs ps new ps', msg_set_all true recs ps new = Some ps' -> ps' = new /\ validate ps' = true.
+Proof.
+  unfold msg_set_all; intros recs ps new ps' H.
+  destruct msg_unique_guard; [|apply (set_all_valid ps new ps' H)].
+  destruct (negb _); [discriminate|]. destruct (negb _); [discriminate|]. apply (set_all_valid ps new ps' H).
+Qed.
 
 Theorem proposal_is_set : forall recs ps code v ps',
   apply_proposal recs ps code v = Some ps' -> set_code recs ps code v = Some ps'.
